@@ -238,12 +238,23 @@ class RenameVar(Op):
 class RenameDim(Op):
     name = 'renameDimension'
 
+    def args(self, ctx, spec):
+        return {'i': ctx.int('i', 0, len(spec.dims) - 1)}
+
+    def conc(self, inputs, spec):
+        return {'i': _g(inputs, 'i', len(spec.dims) - 1)}
+
     def run(self, f, f2, a, env):
-        d = list(f.dimensions)[-1]
+        d = list(f.dimensions)[int(a['i'])]
         return f.renameDimension(d, d + '2')
 
     def surviving(self, spec, a):
-        return [d[0] for d in spec.dims[:-1]]
+        i = int(a['i'])
+        return [d[0] for k, d in enumerate(spec.dims) if k != i]
+
+    def renamed(self, spec, a):
+        d = spec.dims[int(a['i'])][0]
+        return {d + '2': d}
 
 
 class InsertDim(Op):
